@@ -511,7 +511,7 @@ def check(run, plugin, args):
                 f['signature'] = sig
                 run.oracle_failures.append(f)
 
-    for name, case in ([] if args.subpass else load_corpus(prop)):
+    for name, case in load_corpus(prop):
         absorb(*one(case, f'corpus/{name}'))
     cases = plugin.exhaustive(tier, run) if hasattr(plugin, 'exhaustive') and not args.subpass else []
     for case in cases:
